@@ -338,7 +338,7 @@ class Env:
 
     def is_spec_module(self, fn):
         mod = getattr(fn, "__module__", "") or ""
-        return mod.startswith("specs") or mod.startswith("contracts") or mod == "pyvc.api"
+        return mod.startswith("specs") or mod.startswith("contracts") or mod.startswith("lemmas") or mod == "pyvc.api"
 
     def owner_class(self, fn):
         mod = sys.modules.get(fn.__module__)
@@ -642,6 +642,8 @@ class Env:
     # ----------------------------------------------------------------- contracts at call sites
     def modular_contract(self, fn, it):
         c = self.modular.get(fn)
+        if c is not None and c.target in (getattr(it.top_contract, "inline", None) or ()):
+            return None  # this contract wants the callee's body, not its contract
         if c is not None and fn is not self.top_fn:
             return c
         if fn is self.top_fn and it.depth > 0 and c is not None:
@@ -658,6 +660,13 @@ class Env:
         it.bind_args(clo, args, kwargs, frame)
         ns = dict(frame.locals)
         ctx = it.ctx
+        # a contract under proof may establish facts (lemma applications, intermediate obligations) right before a call
+        # that is used by contract, so that the callee's precondition can be proved
+        bhook = (getattr(it.top_contract, "before_calls", None) or {}).get(con.target)
+        if bhook is not None and not ctx.pure:
+            if isinstance(bhook, staticmethod):
+                bhook = bhook.__func__
+            bhook(it, ns)
         for k, f in enumerate(con.clause_list("requires")):
             r = eval_clause(it, f, ns)
             from .verify import contract_tag
@@ -753,6 +762,14 @@ class Env:
             r = eval_clause(it, f, ns2)
             ctx.assume(ops.truth_term(r))
         ctx.trace.append(("call", con.target, {k: snapshot(v) for k, v in ns.items()}, result))
+        # a contract under proof may refine what a callee's contract returned into a more concrete but provably equal
+        # value (e.g. a list literal for a list known only through a specification function): the hook states the
+        # equalities as obligations of the contract under proof
+        hook = (getattr(it.top_contract, "after_calls", None) or {}).get(con.target)
+        if hook is not None and not ctx.pure:
+            if isinstance(hook, staticmethod):
+                hook = hook.__func__
+            result = hook(it, result, ns)
         import inspect as _inspect
 
         if _inspect.iscoroutinefunction(fn):
@@ -767,6 +784,8 @@ class Env:
         con = self.contracts_by_fn.get(fn)
         if con is None or not con.loops:
             return None
+        if fn is not self.top_fn and con.target in (getattr(it.top_contract, "inline", None) or ()):
+            return None  # inlined callee: its loops are unrolled
         fnode, *_ = function_ast(fn)
         ls = loops_in_order(fnode)
         for k, l in enumerate(ls):
@@ -991,6 +1010,16 @@ class Env:
             elif isinstance(gv, SV) or isinstance(hv, SV):
                 if not same_value(hv, gv):
                     raise Unsupported(f"loop {ordinal}: ghost {gk} changed but is not declared (vars['ghost.{gk}'])")
+        if getattr(inv, "hints", None):
+            ns = ns_now()
+            ns["iter_trace"] = list(ctx.trace[n_trace:])
+            for k, v in head_locals.items():
+                ns[k + "__head"] = v
+            if isinstance(selfobj, SObj):
+                ns["head"] = _DictObj(head_fields)
+            for f in inv.hints:
+                r = eval_clause(it, f, ns)
+                ctx.oblige(f"{tag}.hint.{f.__name__}", ops.truth_term(r))
         for f in inv.inv:
             r = eval_clause(it, f, ns_now())
             ctx.oblige(f"{tag}.{f.__name__}.preserved", ops.truth_term(r))
